@@ -100,7 +100,11 @@ pub fn seed(name: &str) -> World {
             mk_ref(&fe, None, Some("/a/a1"), EnumItem::CanCluster); // dangling = a path a rename can create
             mk_ref(&fe, None, Some("/a/c"), EnumItem::EcuInstance); // resolves, DEST does not fit
             let a10 = pkgs.create_named_sub_element(ElementName::ArPackage, "a10").unwrap();
-            a10.create_sub_element(ElementName::ArPackages).unwrap();
+            let sub = a10.create_sub_element(ElementName::ArPackages).unwrap();
+            // the names a package "a" gets when it is moved here are taken twice already: a and a_1 (the latter is referenced)
+            sub.create_named_sub_element(ElementName::ArPackage, "a").unwrap();
+            sub.create_named_sub_element(ElementName::ArPackage, "a_1").unwrap();
+            mk_ref(&fe, None, Some("/a10/a_1"), EnumItem::CanCluster);
         }
         "nested" => {
             m.create_file("x.arxml", V50).unwrap();
@@ -962,6 +966,14 @@ pub fn transition_oracles(w: &World, pre: &PreState, op: &Op, out: &Outcome) -> 
                         let now = new_text.as_ref().and_then(|t| after_paths.get(t));
                         if now != Some(t) {
                             f.push(fd("C06", format!("{kind}|reference-lost-its-target"), format!("{old_text} -> {new_text:?}")));
+                        }
+                    }
+                    Some(t) => {
+                        // a reference to an element outside the moved subtree keeps its text and still designates that element
+                        if new_text.as_deref() != Some(old_text.as_str()) {
+                            f.push(fd("C06", format!("{kind}|unrelated-reference-text-changed"), format!("{old_text} -> {new_text:?}")));
+                        } else if w.m.get_element_by_path(old_text).as_ref() != Some(t) {
+                            f.push(fd("C06", format!("{kind}|unrelated-reference-designates-another-element-now"), old_text.clone()));
                         }
                     }
                     _ => {
